@@ -12,7 +12,7 @@ RULE = ("option-oriented seeded random pairs of the C13 universe with dry_run (4
         "selection by job / id (45%), parallel in {False, 2, True} (30%) x entry point (Project.sync, sync_projects, Job.sync, "
         "sync_jobs); every dry run is accompanied by the same call with dry_run=False on a fresh copy of the pair, every "
         "parallel run by the sequential one; plus the one-file core x deep x dry_run and the one-key document core under "
-        "dry_run; quick samples the cores.  non-trivial: the call or its companion changed the destination or raised; distinct "
+        "dry_run; plus deep trees whose intermediate levels are identical (difference 3-5 levels down, also equal size and mtime, x deep) and stale '<document>~' backup files next to the destination document; quick samples the cores.  non-trivial: the call or its companion changed the destination or raised; distinct "
         "by the JSON of the scenario")
 TRUSTED = [
     "float.__repr__ as an oracle table (documents); re.match outcomes for exclude patterns / regex key strategies as tables "
@@ -33,9 +33,11 @@ def gen_inputs(tier, rng):
     n = 300 if tier == "quick" else 6000
     descs = [sync_gen.rand_scenario(rng, PROP) for _ in range(n)]
     files, docs = sync_gen.core_file_cases((False, True), (False, True)), sync_gen.core_doc_cases((True,))
+    nested, backup = sync_gen.core_nested_cases((True,)), sync_gen.core_backup_cases((True,))
     if tier == "quick":
         files, docs = rng.sample(files, 120), rng.sample(docs, 80)
-    return descs + files + docs
+        nested, backup = rng.sample(nested, 50), rng.sample(backup, 40)
+    return descs + files + docs + nested + backup
 
 def run_case(desc):
     return sync_gen.run_scenario(desc, PROP)
